@@ -55,6 +55,8 @@ type tInst struct {
 	bypassed    bool      // some call was answered without the store
 	cxSuspect   bool      // served by the store, then a call with an ended context returned, no store decision since
 	noscrOpen   bool      // the server answered NOSCRIPT to a call of this instance and has made no decision for the instance since
+	slowed      int       // commands of this instance that the slow-but-healthy store delayed so far
+	slowedOver  int       // ... by more than 100 ms
 	calls       []*tCall
 }
 
@@ -103,6 +105,8 @@ type tWorld struct {
 	rGrants     int
 	loss        *cacheLoss
 	lossBypass  bool // an instance answered beside the store after the server had told it NOSCRIPT
+	slow        *slowStore
+	slowBypass  bool // an instance answered beside the store after nothing but slow, correct replies
 }
 
 // bypassCause names why instances answer without the store, from what was observed.
@@ -114,6 +118,8 @@ func (w *tWorld) bypassCause(def string) string {
 		return "script-error"
 	case w.lossBypass:
 		return "script-cache-lost"
+	case w.slowBypass:
+		return "store-slow-but-healthy"
 	}
 	return def
 }
@@ -444,17 +450,28 @@ func (w *tWorld) finish(c *tCall) {
 				def = "no-store-decision"
 			}
 			how := ""
+			if in.slowed > 0 && !w.faulty {
+				// nothing happened to this instance except that the store took its time: every
+				// command was executed once and answered correctly within go-redis' timeouts
+				def = "store-slow-but-healthy"
+				how = fmt.Sprintf(" (the store was slow but healthy: %d commands of this instance were delayed by 1 ms - 2.9 s, %d of them by more than 100 ms, each executed once and answered correctly within go-redis' 3 s timeouts - that is no store failure)", in.slowed, in.slowedOver)
+			}
 			if c.cx.ended || in.cxSuspect {
 				// the only thing that happened to this instance is a caller whose context ended
 				def = "caller-context-ended"
 				how = fmt.Sprintf(" (context of this call: %v, ended: %v; an earlier call of the instance returned with an ended context: %v - a caller's context is no store outage)", c.cx.kind, c.cx.ended, in.cxSuspect)
 			}
-			if (c.noscr > 0 || in.noscrOpen) && !c.cx.ended {
+			if (c.noscr > 0 || in.noscrOpen) && !c.cx.ended && !(def == "store-slow-but-healthy" && w.loss.lost == 0) {
+				// (on a slow store whose script cache was never lost the only NOSCRIPT replies are the
+				// ordinary ones of the cold start; the slowness is what is new for the instance)
 				// the reachable store told the instance that it does not have the script (any more)
 				// and the instance went on without the store instead of sending the script
 				def = "script-cache-lost"
 				w.lossBypass = true
 				how = fmt.Sprintf(" (the server answered NOSCRIPT %d time(s) to this call and has executed no token script for this instance since a NOSCRIPT reply; script cache lost %d time(s) so far in this run, data kept, store reachable - that is no store failure)", c.noscr, w.loss.lost)
+			}
+			if def == "store-slow-but-healthy" {
+				w.slowBypass = true
 			}
 			w.note(4, "token-store-bypassed-store-reachable/"+w.bypassCause(def),
 				"rate %d burst %d: instance %d answered AllowN(now=%s, n=%d)=%v at %s without a decision of the store although the store is reachable and nothing failed for this instance in the last %v (final phase: %v; server answers to this call: %d)%s",
@@ -660,6 +677,47 @@ func tokenRun(r *simrt.Run, tier string, faulty bool) {
 			w.excuse(in, time.Now().Add(excuseWindow))
 		}
 	}
+	// (fault-free member: the store may be slow but healthy, see slow_test.go)
+	w.slow = drawSlow(r, faulty)
+	if w.slow.on() {
+		r.Probe("token-slow-store")
+		w.slow.onSlow = func(c *simredis.Cmd, d time.Duration) {
+			if in := w.instOfTask[c.Task]; in != nil {
+				in.slowed++
+				if d > 100*time.Millisecond {
+					in.slowedOver++
+				}
+			}
+		}
+		// a request that arrives after the bucket keys expired must arrive in the second it
+		// carries: a LATE request meeting expired keys is the open known finding
+		// stale-now-after-ttl-expiry, which a slow store shall not manufacture
+		w.slow.shape = func(c *simredis.Cmd, req, rep time.Duration) (time.Duration, time.Duration) {
+			call := w.cur[c.Task]
+			if call == nil || w.expiry.IsZero() {
+				return req, rep
+			}
+			const margin = 10 * time.Millisecond
+			now := time.Now()
+			alive := func(d time.Duration) bool { return now.Add(d).Before(w.expiry.Add(-margin)) }
+			// what is left of the second the request carries
+			room := call.now.Truncate(time.Second).Add(time.Second).Sub(now) - margin
+			if room < 0 {
+				room = 0
+			}
+			if req > room && !alive(req) {
+				rep += req - room
+				req = room
+			}
+			// the reply may be NOSCRIPT when the server can lose its script cache in this run: the
+			// EVAL that follows carries the same second and leaves when the reply has arrived
+			if c.Name() == "EVALSHA" && (w.loss.perMille > 0 || len(w.loss.gaps) > 0) && req+rep > room && !alive(req+rep) {
+				rep = room - req
+			}
+			return req, rep
+		}
+		pol = w.slow.policy()
+	}
 	srv.Fault = w.loss.wrap(cxFault(r, pol, func(task int) *cxPlan {
 		if c := w.cur[task]; c != nil {
 			return c.cx
@@ -688,7 +746,7 @@ func tokenRun(r *simrt.Run, tier string, faulty bool) {
 	}
 	if r.Tracing() {
 		r.Logf("token: rate=%d burst=%d instances=%d clients=%d steps=%d faulty=%v transport=%v outages=%d offset=%v", w.rate, w.burst, nInst, len(clients), nSteps, faulty, transport, outages, offset)
-		r.Logf("token: script-cache-loss=%v", w.loss.sample())
+		r.Logf("token: script-cache-loss=%v slow-healthy-store=%v", w.loss.sample(), w.slow.sample())
 	}
 	if offset > 0 {
 		r.Sleep(offset)
@@ -867,6 +925,6 @@ func tokenRun(r *simrt.Run, tier string, faulty bool) {
 	}
 	r.Sample(map[string]any{"component": "TokenLimiter", "faulty": faulty, "rate": w.rate, "burst": w.burst, "instances": nInst, "client_tasks": len(clients),
 		"calls_per_task": nSteps, "transport_faults": transport, "outage_windows": outages, "initial_offset": offset.String(), "calls_with_own_context_per_24": often,
-		"calls": len(w.calls), "tokens_granted": grants, "script_executions": w.nExec, "local_grants": w.rGrants, "script_cache_lost": w.loss.sample(), "faults_fired": srv.FiredMap()})
+		"calls": len(w.calls), "tokens_granted": grants, "script_executions": w.nExec, "local_grants": w.rGrants, "script_cache_lost": w.loss.sample(), "slow_healthy_store": w.slow.sample(), "faults_fired": srv.FiredMap()})
 	w.flush()
 }
